@@ -1,3 +1,19 @@
 import Uflow.Props.C09
 open Uflow.Props.C09
 #print axioms C09_u32_lt
+#print axioms C09_discGate_iff
+#print axioms C09_flush_gate_client
+#print axioms C09_only_step_enters_closing
+#print axioms C09_flush_gate_client_active
+#print axioms C09_retry_budget_client
+#print axioms C09_retry_budget_client_entered
+#print axioms C09_sDiscGate_iff
+#print axioms C09_flush_gate_server
+#print axioms C09_retry_budget_server_partial
+#print axioms C09_stale_timer_noop
+#print axioms C09_closing_terminal_event_server
+#print axioms C09_server_timer_invariant
+#print axioms C09_enter_closing_server
+#print axioms C09_retry_budget_server
+#print axioms C09_left_forever_server
+#print axioms C09_timer_firing_server
